@@ -7,16 +7,16 @@ from .modelcheck import run_property
 def run(tier, seed, verdict):
     quick = tier != "thorough"
     runs = [mr.ModelRun("MC_Sess_quick.cfg" if quick else "MC_C02_quick.cfg", seed, probes=("dead_ids", "reopen", "attrs"),
-                        name_pools=[0, 1, 2, 4], stride=5 if quick else 8),
+                        name_pools=[0, 1, 2, 4], stride=5 if quick else 16),
             mr.ModelRun("MC_Sess_links_quick.cfg" if quick else "MC_C02_links.cfg", seed + 1, probes=("reopen", "attrs"),
-                        name_pools=[0, 2], stride=1),
+                        name_pools=[0, 2], stride=1 if quick else 3),
             # link, unlink, link again on a small block: link lists that become empty in between
             mr.ModelRun("MC_C02_relink4.cfg", seed + 2, probes=("reopen",), name_pools=[0, 1], stride=2 if quick else 1),
             # random walks (TLC -simulate): calls repeated, undone and redone inside one session, long-lived handles warm
             mr.ModelRun("MC_SimSmall.cfg", seed + 3, probes=("dead_ids", "reopen"), name_pools=[0, 1, 2],
-                        simulate="num=%d" % (40 if quick else 400), depth=32),
+                        simulate="num=%d" % (40 if quick else 150), depth=32),
             mr.ModelRun("MC_SimChurn.cfg", seed + 4, probes=("dead_ids", "reopen"), name_pools=[0, 3, 5],
-                        simulate="num=%d" % (40 if quick else 400), depth=32)]
+                        simulate="num=%d" % (40 if quick else 150), depth=32)]
     level, cov, assumptions = run_property(
         "C02", verdict, runs, require_actions=("SetAttr:ok", "WriteData:ok", "Delete:ok", "LinkAppend:ok", "SetRole:ok"),
         tlc_props=["TypeOK", "NoDangling", "IdNameStable"],
